@@ -14,6 +14,7 @@ package babe
 import (
 	"errors"
 	"fmt"
+	"math/big"
 	"testing"
 	"time"
 
@@ -105,10 +106,25 @@ type vfScenario struct {
 	winMemo map[[2]uint64]bool
 }
 
+// vfOpts pins parts of a scenario (used to build competing forks that share keys / randomness / epoch number).
+type vfOpts struct {
+	seeds      [][]byte    // authority key seeds (len n) or nil
+	rnd        *Randomness // epoch randomness or nil
+	epoch      *uint64
+	parentKind string // "" = drawn
+}
+
 func vfNewScenario(r *vcommon.Rand, n int, allowed byte, c1, c2 uint64) (*vfScenario, error) {
+	return vfNewScenarioOpts(r, n, allowed, c1, c2, vfOpts{})
+}
+
+func vfNewScenarioOpts(r *vcommon.Rand, n int, allowed byte, c1, c2 uint64, o vfOpts) (*vfScenario, error) {
 	sc := &vfScenario{n: n, allowed: allowed, c1: c1, c2: c2, winMemo: map[[2]uint64]bool{}}
 	for i := 0; i < n; i++ {
 		seed := r.Bytes(32)
+		if o.seeds != nil {
+			seed = o.seeds[i]
+		}
 		kp, err := sr25519.NewKeypairFromSeed(seed)
 		if err != nil {
 			return nil, err
@@ -128,6 +144,12 @@ func vfNewScenario(r *vcommon.Rand, n int, allowed byte, c1, c2 uint64) (*vfScen
 		sc.epoch = r.Uint64() >> uint(r.Range(1, 60))
 	}
 	sc.slot0 = r.Uint64() >> uint(r.Range(2, 50))
+	if o.rnd != nil {
+		sc.rnd = *o.rnd
+	}
+	if o.epoch != nil {
+		sc.epoch = *o.epoch
+	}
 	raw := &types.EpochDataRaw{Authorities: sc.auths, Randomness: sc.rnd}
 	cfg := &types.ConfigData{C1: c1, C2: c2, SecondarySlots: allowed}
 	for i := 0; i < n; i++ {
@@ -152,6 +174,12 @@ func vfNewScenario(r *vcommon.Rand, n int, allowed byte, c1, c2 uint64) (*vfScen
 	}
 	if sc.epoch == 0 && sc.parentKind != "genesis" {
 		sc.parentKind = "genesis"
+	}
+	switch o.parentKind {
+	case "same-epoch":
+		sc.parentKind, sc.parentEpoch = "same-epoch", sc.epoch
+	case "previous-epoch":
+		sc.parentKind, sc.parentEpoch = "previous-epoch", sc.epoch-1
 	}
 	if sc.parentKind == "genesis" {
 		sc.parent = &types.Header{Number: 0, Digest: types.NewDigest()}
@@ -383,8 +411,35 @@ func (sc *vfScenario) viaVerifier(h *types.Header) vfVerdict {
 	return v
 }
 
+// viaVerifierT: as viaVerifier, with the epoch threshold replaced (boundary cases of "output below the threshold").
+func (sc *vfScenario) viaVerifierT(thr *scale.Uint128) func(h *types.Header) vfVerdict {
+	return func(h *types.Header) vfVerdict {
+		bs, es, ss := sc.states()
+		vm := NewVerificationManager(bs, ss, es)
+		v := vfGuard(func() error {
+			info, err := vm.getVerifierInfo(sc.epoch, h)
+			if err != nil {
+				return fmt.Errorf("getVerifierInfo: %w", err)
+			}
+			info.threshold = thr
+			return newVerifier(bs, ss, sc.epoch, info, 6*time.Second).verifyAuthorshipRight(h)
+		})
+		v.slotSt = ss
+		return v
+	}
+}
+
+type vfEntry struct {
+	name string
+	run  func(*types.Header) vfVerdict
+}
+
 // judge runs both entry points on copies of h and compares with the label.
 func (sc *vfScenario) judge(c *vcommon.Case, label string, honest bool, h *types.Header, note map[string]any) {
+	sc.judgeWith(c, label, honest, h, note, []vfEntry{{"VerifyBlock", sc.viaManager}, {"verifyAuthorshipRight", sc.viaVerifier}})
+}
+
+func (sc *vfScenario) judgeWith(c *vcommon.Case, label string, honest bool, h *types.Header, note map[string]any, entries []vfEntry) {
 	enc, encErr := scale.Marshal(*h)
 	kind := "no_pre_digest"
 	if len(h.Digest) > 0 {
@@ -403,10 +458,7 @@ func (sc *vfScenario) judge(c *vcommon.Case, label string, honest bool, h *types
 	}
 	c.Distinct(fmt.Sprintf("%s|%s|sec%d|c%d/%d|n%d|%s", label, kind, sc.allowed, sc.c1, sc.c2, sc.n, sc.parentKind))
 	verdicts := map[string]string{}
-	for _, ep := range []struct {
-		name string
-		run  func(*types.Header) vfVerdict
-	}{{"VerifyBlock", sc.viaManager}, {"verifyAuthorshipRight", sc.viaVerifier}} {
+	for _, ep := range entries {
 		hc := vfCloneHeader(h)
 		v := ep.run(hc)
 		c.Eval(1)
@@ -434,7 +486,9 @@ func (sc *vfScenario) judge(c *vcommon.Case, label string, honest bool, h *types
 			c.Count("rej__"+label+"__"+cls, 1)
 		}
 		if accepted {
-			if v.slotSt.calls == 1 {
+			if v.slotSt == nil {
+				// shared-manager run: slot table owned by the caller
+			} else if v.slotSt.calls == 1 {
 				c.Count("accepted_then_equivocation_checked_once", 1)
 			} else {
 				c.Count("accepted_equivocation_calls_not_1", 1)
@@ -531,6 +585,13 @@ func (sc *vfScenario) runAll(c *vcommon.Case) {
 			map[string]any{"author": i, "slot": s})
 	} else {
 		skip("primary_no_slot_in_600")
+	}
+
+	// ---- the threshold is strict: value == threshold is NOT a win (Substrate: value < threshold)
+	for k := 0; k < 3; k++ {
+		a := r.Intn(n)
+		s := sc.slot0 + uint64(r.Intn(1<<16))
+		sc.thresholdBoundary(c, a, s)
 	}
 
 	// ---- wrong kind for the configuration (by the assigned author, otherwise flawless)
@@ -740,6 +801,50 @@ func (sc *vfScenario) runAll(c *vcommon.Case) {
 	}
 }
 
+// thresholdBoundary takes authority a's VRF output for slot s (any slot: the threshold is what is varied), computes its
+// 128-bit lottery value v with the harness' own transcript + schnorrkel make_bytes, and runs the node's claim and the
+// verifier with epoch thresholds v-1, v, v+1.
+func (sc *vfScenario) thresholdBoundary(c *vcommon.Case, a int, s uint64) {
+	out, proof := vfVRF(sc.kps[a], sc.rnd, s, sc.epoch)
+	v, err := vfLotteryValue(out, sc.kps[a].Public().(*sr25519.PublicKey), sc.rnd, s, sc.epoch)
+	if err != nil {
+		c.Inconclusive("make_bytes: " + err.Error())
+		return
+	}
+	h := vfSeal(sc.unsealed(*vfPre(*types.NewBabePrimaryPreDigest(uint32(a), s, out, proof))), sc.kps[a])
+	one := big.NewInt(1)
+	for _, t := range []struct {
+		label  string
+		thr    *big.Int
+		honest bool
+	}{
+		{"primary_value_equals_threshold", new(big.Int).Set(v), false},
+		{"primary_value_one_below_threshold", new(big.Int).Add(v, one), true},
+		{"primary_value_one_above_threshold", new(big.Int).Sub(v, one), false},
+	} {
+		if t.thr.Sign() < 0 || t.thr.Cmp(vfMaxU128) > 0 {
+			c.Count("skipped_threshold_boundary_out_of_range", 1)
+			continue
+		}
+		thr := vfBigU128(t.thr)
+		note := map[string]any{"author": a, "slot": s, "vrf_value": v.String(), "threshold": t.thr.String()}
+		sc.judgeWith(c, t.label, t.honest, h, note, []vfEntry{{"verifyAuthorshipRight(threshold set)", sc.viaVerifierT(thr)}})
+		// authoring side: the node's own lottery must agree
+		c.Eval(1)
+		_, cerr := claimPrimarySlot(sc.rnd, s, sc.epoch, thr, sc.kps[a])
+		switch {
+		case cerr != nil && !errors.Is(cerr, errOverPrimarySlotThreshold):
+			c.Violation("claim-error", fmt.Sprintf("claimPrimarySlot: %v", cerr), note)
+		case t.honest && cerr != nil:
+			c.Violation("claim-refused-below-threshold", fmt.Sprintf("claimPrimarySlot refused a slot whose VRF value %s is below the threshold %s", v, t.thr), note)
+		case !t.honest && cerr == nil:
+			c.Violation("claim-at-or-above-threshold", fmt.Sprintf("claimPrimarySlot claimed a slot whose VRF value %s is not below the threshold %s", v, t.thr), note)
+		default:
+			c.Count("claim_boundary_agrees", 1)
+		}
+	}
+}
+
 // ---------------------------------------------------------------- test
 
 type vfCfg struct {
@@ -790,6 +895,19 @@ func TestVerifC24(t *testing.T) {
 		r.Floor("label_"+l, 20)
 	}
 	r.Floor("secondary_claim_where_primary_possible", 10)
+	for _, l := range []string{"primary_value_equals_threshold", "primary_value_one_below_threshold", "primary_value_one_above_threshold"} {
+		r.Floor("label_"+l, 300)
+	}
+	r.Floor("claim_boundary_agrees", 900)
+	r.Floor("shared_manager_same_epoch_different_fork_data", 40)
+	r.Floor("shared_manager_fork_switches", 150)
+	for _, v := range vfForkVariants {
+		r.Floor("fork_variant_"+v, 8)
+	}
+	for _, l := range []string{"fork_own_claim", "cross_author_of_other_fork", "cross_vrf_for_other_forks_randomness",
+		"cross_secondary_kind_of_other_fork", "cross_primary_under_other_forks_threshold"} {
+		r.Floor("label_"+l, 10)
+	}
 	r.Floor("vrf_tamper_on_primary", 50)
 	r.Floor("vrf_tamper_on_secondary_vrf", 10)
 	r.Floor("scenario_parent_skipped-epochs", 3)
@@ -805,6 +923,10 @@ func TestVerifC24(t *testing.T) {
 		}
 	}
 	r.Fixed("corpus", len(fixed), func(c *vcommon.Case) { vfRunScenario(c, fixed[c.Idx]) })
+
+	// competing forks on one manager: one scenario per kind of difference (seed independent), then seeded ones
+	r.Fixed("forks-corpus", len(vfForkVariants), func(c *vcommon.Case) { vfRunForks(c, vfForkVariants[c.Idx]) })
+	r.Cases("forks", r.Scale(80), func(c *vcommon.Case) { vfRunForks(c, vfForkVariants[c.Idx%len(vfForkVariants)]) })
 
 	r.Cases("gen", r.Scale(400), func(c *vcommon.Case) {
 		cc := vcommon.Pick(c.R, [][2]uint64{{1, 4}, {1, 2}, {1, 1}})
